@@ -133,7 +133,8 @@ std::string random_tw(sim::Rng& r, int wsp, double p_special)
    case 3: case 4: { const std::string f = GB_FIELDS[r.below(12)]; return W + "gb " + f + " " + std::to_string(r.below(3)) + " " + std::to_string(r.below(3)) + " " + sim::dstr(ws_value(r, f, p_special)); }
    case 5: { const std::string f = SM_FIELDS[r.below(12)]; return W + "sm " + f + " " + std::to_string(r.below(3)) + " " + std::to_string(r.below(3)) + " " + sim::dstr(ws_value(r, f, p_special)); }
    case 6: case 7: return W + "yt " + std::to_string(r.chance(0.6) ? (int)r.range(1, 6) : YT_VALUES[r.below(12)]);
-   case 8: return W + (r.chance(0.5) ? "smdef" : "cfgdef") + (r.chance(0.1) ? " null" : "");
+   case 8: if (r.chance(0.25)) { static const char* const z[] = {"sm", "ckm", "mb", "gb"}; return W + "zero " + z[r.below(4)]; }
+           return W + (r.chance(0.5) ? "smdef" : "cfgdef") + (r.chance(0.1) ? " null" : "");
    default: return W + "cfg " + std::to_string(r.chance(0.5) ? 0 : (int)r.range(-1, 2)) + " " + std::to_string(r.chance(0.5) ? 1 : (int)r.range(-1, 2));
    }
 }
@@ -297,6 +298,40 @@ struct Sweep {
       for (const char* kind : {"mass", "gauge"}) {
          plans.push_back({"tw 0 reset 0", std::string("tnew 0 0 ") + kind + " 0 0 1 0"});
          plans.push_back({"tw 0 reset 0", std::string("tnew 0 0 ") + kind + " 1 1 0 1", "t 0 gm2calc_thdm_calculate_amu_1loop"});
+      }
+      // every field (every element of every array) of the three input structs x every special value x both bases:
+      // what the C constructors do with a struct must be what the C++ constructors do with the same numbers
+      {
+         static const double sp[] = {0.0, -0.0, 1e-300, -1e-300, 1e300, -1e300, 5e-324, 1.7976931348623157e308, nan, -nan, inf, -inf, -1.0, 1.0, -1e4, 1e19, 1e-13, 1e-17};
+         struct Fld { const char* which; const char* name; int ni, nk; };
+         static const Fld flds[] = {
+            {"sm", "alpha_em_0", 1, 1}, {"sm", "alpha_em_mz", 1, 1}, {"sm", "alpha_s_mz", 1, 1}, {"sm", "mh", 1, 1}, {"sm", "mw", 1, 1}, {"sm", "mz", 1, 1},
+            {"sm", "mu", 3, 1}, {"sm", "md", 3, 1}, {"sm", "mv", 3, 1}, {"sm", "ml", 3, 1}, {"sm", "ckm_real", 3, 3}, {"sm", "ckm_imag", 3, 3},
+            {"mb", "mh", 1, 1}, {"mb", "mH", 1, 1}, {"mb", "mA", 1, 1}, {"mb", "mHp", 1, 1}, {"mb", "sin_beta_minus_alpha", 1, 1}, {"mb", "lambda_6", 1, 1}, {"mb", "lambda_7", 1, 1},
+            {"mb", "tan_beta", 1, 1}, {"mb", "m122", 1, 1}, {"mb", "zeta_u", 1, 1}, {"mb", "zeta_d", 1, 1}, {"mb", "zeta_l", 1, 1},
+            {"mb", "Delta_u", 3, 3}, {"mb", "Delta_d", 3, 3}, {"mb", "Delta_l", 3, 3}, {"mb", "Pi_u", 3, 3}, {"mb", "Pi_d", 3, 3}, {"mb", "Pi_l", 3, 3},
+            {"gb", "lambda", 3, 3}, {"gb", "tan_beta", 1, 1}, {"gb", "m122", 1, 1}, {"gb", "zeta_u", 1, 1}, {"gb", "zeta_d", 1, 1}, {"gb", "zeta_l", 1, 1},
+            {"gb", "Delta_u", 3, 3}, {"gb", "Delta_d", 3, 3}, {"gb", "Delta_l", 3, 3}, {"gb", "Pi_u", 3, 3}, {"gb", "Pi_d", 3, 3}, {"gb", "Pi_l", 3, 3}};
+         auto finish = [&](std::vector<std::string> rec, const char* kind) {
+            rec.push_back(std::string("tnew 0 0 ") + kind + " 0 0 0 0");
+            for (auto* f : T.tfns) rec.push_back(std::string("t 0 ") + f->name + " 0x1.5798ee2308c3ap-27 0x1.12e0be826d695p-30");
+            rec.push_back("t 0 gm2calc_thdm_free");
+            plans.push_back(rec);
+         };
+         for (auto& f : flds)
+            for (int i = 0; i < f.ni; ++i) for (int k = 0; k < f.nk; ++k) {
+               if (std::string(f.name) == "lambda" && i * 3 + k >= 7) continue;
+               for (double v : sp)
+                  for (const char* kind : {"mass", "gauge"}) {
+                     if ((std::string(f.which) == "mb" && std::string(kind) == "gauge") || (std::string(f.which) == "gb" && std::string(kind) == "mass")) continue;
+                     finish({"tw 0 reset 1", "tw 0 yt " + std::to_string(1 + (i + k) % 6), std::string("tw 0 ") + f.which + " " + f.name + " " + std::to_string(i) + " " + std::to_string(k) + " " + sim::dstr(v)}, kind);
+                  }
+            }
+         // zero-initialised structs (`= {0}`), alone and in combination
+         for (const char* kind : {"mass", "gauge"})
+            for (const char* z : {"sm", "ckm", "mb", "gb"})
+               for (int force = 0; force < 2; ++force)
+                  finish({"tw 0 reset 1", std::string("tw 0 zero ") + z, std::string("tw 0 cfg ") + (force ? "1" : "0") + " 1"}, kind);
       }
       std::vector<std::string> misc = {"tw 0 smdef", "tw 0 smdef null", "tw 0 cfgdef", "tw 0 cfgdef null", "t 0 gm2calc_thdm_free", mline(0, "gm2calc_mssmnofv_free")};
       for (int v : YT_VALUES) { misc.push_back("x yuk " + std::to_string(v)); misc.push_back("x errstr " + std::to_string(v)); }
